@@ -59,6 +59,19 @@ add("C16", "model_checking",
     "The reference is written from the property text and anchored to the published vector 23753528/FOOBAR -> 72768415. Challenges with surrounding whitespace are excluded (the line reader trims).",
     "bounded-exhaustive enumeration of challenges x passwords x aux configurations against an independent reference", "link", "DESIGN.md §5 C16")
 
+add("C02", "model_checking",
+    "Explicit-state search over mailbox states (per message: pending/sent/rejected at the sender, held or not at the receiver) for 10 (thorough 12) two-station scenarios: BFS to a fixpoint where each transition is one complete session of two real Sessions from that state under one fault plan - every cut offset k in each direction (coupled link failure; in-flight bytes delivered or lost; writes failing at once / never / after f calls; EOF or connection reset), a storage error at every inbound index, thorough: all cut pairs (kAB,kBA). Invariants on every transition: both calls return without a deadlock, SetSent(mid,false) only if the peer's handler completed ProcessInbound(mid), SetSent(mid,true) only if the peer holds it, delivered bytes identical, no duplicate delivery; from every reachable state one clean session reaches the goal (everything delivered exactly once and reported sent, deferred stays pending).",
+    "In-memory reference handler implementing the MBoxHandler contract (the real DirHandler is covered by C10/C11 and, for sessions, by the dirhandler part when present). Bounded time = no deadlock under the link's scheduler (the Session sets no read deadline; a cut is visible to both ends as EOF/reset).",
+    "explicit-state BFS over mailbox states; transitions = real sessions under exhaustively enumerated cut / storage-fault plans", "link", "DESIGN.md §5 C02")
+add("C03", "fault_enumeration",
+    "A real Session is run against scripted remote byte strings: 12 base transcripts recorded from the reference peer (both roles, with/without outbound pending, 0/1/2 inbound messages) x every offset x {truncate, delete, 14 substitutions, 12 insertions}; every numeric token x 9 boundary values; every line x {drop, duplicate, replace/insert 39 protocol fragments}; the same one layer down with outer layers re-sealed by the references: compressed payload bytes (frame + block checksum recomputed, also CRC resealed), LZHUF size field (12 values), and the decompressed message (every truncation, header byte edits, Body/File sizes -1/0/+-1/1e10/3e9/2^31-1, missing blank line / Date / Mid, 1e5-byte header line) recompressed and re-framed; all strings of length <= 3 over a 12-byte protocol alphabet at the protocol positions. Each case runs in an isolated worker under a watchdog and an address-space limit. Oracle: Exchange returns, no panic in any goroutine, no process death, allocation <= 64 MiB + 4096 x bytes received, connection closed.",
+    "A CPU spin is believed only after a 20 s watchdog stall and three 30 s solo re-runs (cases normally take < 1 ms). After a confirmed hang in a mutation layer its remaining cases are skipped in restarted workers (reported as a cap, exhaustive=false).",
+    "exhaustive fault enumeration (position x mutation menu at four protocol layers) with process isolation", "link", "DESIGN.md §5 C03")
+add("C10", "model_checking",
+    "Explicit-state BFS on the real mailbox.DirHandler (tmpfs), depth 8 (thorough 12): universe of five outbound messages (one recipient; two recipients; P2P-only; To+Cc; Cc-only), two inbound MIDs, seven forwarder lists (CMS, callsign, other, both, lower case, @winlink.org, SMTP), operations AddOut, Prepare, GetOutbound, SetSent, SetDeferred, ProcessInbound, GetInboundAnswer, SetUnread, Restart (normal / send-only). Each transition replays the shortest path on a fresh directory, applies one operation to the real handler and to a reference model in lockstep and compares the result and all four folder listings and counts. State key = model state + hash of the directory tree + reflective dump of the handler's in-memory fields.",
+    "Driver respects the documented contract (session operations after Prepare; SetSent/SetDeferred for MIDs in the outbox; AddOut for new MIDs). Folders exist before the first operation.",
+    "explicit-state BFS of the real implementation in lockstep with a reference model", "seq", "DESIGN.md §5 C10")
+
 ids = [json.loads(l)["id"] for l in open("/verif/properties.jsonl")]
 na = [dict(property_id=i, reason="check not built yet in this session (planned, see DESIGN.md §5); not claimed until its command exists and is green") for i in ids if i not in checks]
 m = dict(version=1,
